@@ -255,8 +255,34 @@ pub fn strip_keys(v: &mut Value, keys: &[&str]) {
 pub fn report_cross_run(r: &Reader) -> Value {
     let txt = r.json();
     let mut v: Value = serde_json::from_str(&txt).unwrap_or(Value::Null);
-    // collect urns in order of first appearance in the text
+    // Collect manifest URNs in a deterministic order: the active manifest first, then a depth-first walk over
+    // `ingredients[].active_manifest`, then whatever is left sorted by label. (`json()` serialises the manifests
+    // from a HashMap, so "order of first appearance in the text" would differ between two reads.)
     let mut urns: Vec<String> = vec![];
+    {
+        let manifests = v["manifests"].as_object().cloned().unwrap_or_default();
+        let mut stack: Vec<String> = vec![];
+        if let Some(a) = v["active_manifest"].as_str() {
+            stack.push(a.to_string());
+        }
+        while let Some(l) = stack.pop() {
+            if urns.contains(&l) {
+                continue;
+            }
+            urns.push(l.clone());
+            if let Some(ings) = manifests.get(&l).and_then(|m| m["ingredients"].as_array()) {
+                for ing in ings.iter().rev() {
+                    if let Some(t) = ing["active_manifest"].as_str() {
+                        stack.push(t.to_string());
+                    }
+                }
+            }
+        }
+        let mut rest: Vec<String> = manifests.keys().filter(|k| !urns.contains(k)).cloned().collect();
+        rest.sort();
+        urns.extend(rest);
+    }
+    // any other urn:c2pa:/urn:uuid: strings (not manifest labels) in order of appearance
     let mut i = 0;
     let bytes = txt.as_bytes();
     while i < bytes.len() {
